@@ -5,6 +5,7 @@ import (
 	"fmt"
 	"os"
 	"os/exec"
+	"reflect"
 	"strings"
 	"sync"
 
@@ -69,7 +70,11 @@ func c19Init() {
 // a body builds its own instances, runs, and returns its observable result
 type c19Body struct {
 	name string
-	run  func(it *gotype.Iterator, buf *bytes.Buffer) string
+	// fresh: a struct type nobody in this process has used before (built per execution with
+	// reflect.StructOf and shared by the threads of that execution), so that process-wide caches
+	// keyed by type see a genuine first use in every execution
+	runFresh func(fresh reflect.Type, buf *bytes.Buffer) string
+	run      func(it *gotype.Iterator, buf *bytes.Buffer) string
 	// cached: the thread uses an iterator/unfolder that has already seen the types (prepared outside the scheduler)
 }
 
@@ -145,6 +150,25 @@ func c19Bodies() []c19Body {
 		}
 		return model.Dump(t)
 	}})
+	// first use of a never-seen struct type (fold and unfold), see c19FreshType
+	out = append(out, c19Body{name: "Fold(fresh struct type)->cborl", runFresh: func(fresh reflect.Type, buf *bytes.Buffer) string {
+		v := reflect.New(fresh).Elem()
+		c19FillFresh(v)
+		if err := gotype.Fold(v.Interface(), codecCBOR.NewEnc(buf, 0)); err != nil {
+			return "error: " + err.Error()
+		}
+		return fmt.Sprintf("%x", buf.Bytes())
+	}}, c19Body{name: "Parse(json)->Unfold(fresh struct type)", runFresh: func(fresh reflect.Type, _ *bytes.Buffer) string {
+		t := reflect.New(fresh)
+		u, err := gotype.NewUnfolder(t.Interface())
+		if err != nil {
+			return "error: " + err.Error()
+		}
+		if err := codecJSON.Parse([]byte(`{"a":"x","n":{"b":[1,2],"m":{"k":{"a":"deep"}}},"l":[{"b":[3]}],"unknown":{"q":[1,{"r":"s"}]}}`), u); err != nil {
+			return "error: " + err.Error()
+		}
+		return model.Dump(t.Elem().Interface())
+	}})
 	// cached use: an iterator that has compiled the type before the concurrent phase starts
 	out = append(out, c19Body{name: "cached Iterator.Fold(c19Nested)->json", run: func(it *gotype.Iterator, buf *bytes.Buffer) string {
 		buf.Reset()
@@ -200,7 +224,7 @@ func c19RunSolo(bodies []c19Body, i int) (string, int) {
 	}
 	it, buf := c19Prepare(bodies[i])
 	verifrt.Reset(0)
-	r := bodies[i].run(it, buf)
+	r := c19Call(bodies[i], it, buf, c19FreshType())
 	c19Solo[i], c19SoloPts[i] = r, int(verifrt.Steps())
 	return r, c19SoloPts[i]
 }
@@ -289,12 +313,13 @@ func c19Schedule(x *engine.Exec, bodies []c19Body, ids []int, start, maxPts int)
 	for i, id := range ids {
 		its[i], bufs[i] = c19Prepare(bodies[id])
 	}
+	fresh := c19FreshType()
 	s := engine.NewSched(x, f, 0)
 	got := make([]string, len(ids))
 	var fns []func()
 	for i, id := range ids {
 		i, id := i, id
-		fns = append(fns, func() { got[i] = bodies[id].run(its[i], bufs[i]) })
+		fns = append(fns, func() { got[i] = c19Call(bodies[id], its[i], bufs[i], fresh) })
 	}
 	verifrt.Reset(int64(20*total + 20000))
 	verifrt.Hook = s.Point
@@ -336,6 +361,52 @@ func c19Schedule(x *engine.Exec, bodies []c19Body, ids []int, start, maxPts int)
 	x.Outcome(fmt.Sprint(s.Preemptions))
 }
 
+var c19FreshCounter int
+
+// c19FreshType builds a struct type no one has used before: the layout is fixed, one tag varies.
+// (reflect.StructOf types are never freed: a few hundred bytes per execution.)
+func c19FreshType() reflect.Type {
+	c19FreshCounter++
+	tStr := reflect.TypeOf("")
+	inner := reflect.StructOf([]reflect.StructField{
+		{Name: "A", Type: tStr, Tag: `struct:"a"`},
+		{Name: "B", Type: reflect.TypeOf([]int(nil)), Tag: `struct:"b"`},
+		{Name: "U", Type: reflect.TypeOf(0), Tag: reflect.StructTag(fmt.Sprintf(`struct:"u" verif:"%d"`, c19FreshCounter))},
+	})
+	mid := reflect.StructOf([]reflect.StructField{
+		{Name: "B", Type: reflect.TypeOf([]int(nil)), Tag: `struct:"b"`},
+		{Name: "M", Type: reflect.MapOf(tStr, inner), Tag: `struct:"m"`},
+		{Name: "U", Type: reflect.TypeOf(0), Tag: reflect.StructTag(fmt.Sprintf(`struct:"u" verif:"%d"`, c19FreshCounter))},
+	})
+	return reflect.StructOf([]reflect.StructField{
+		{Name: "A", Type: tStr, Tag: `struct:"a"`},
+		{Name: "N", Type: mid, Tag: `struct:"n"`},
+		{Name: "L", Type: reflect.SliceOf(inner), Tag: `struct:"l"`},
+		{Name: "P", Type: reflect.PtrTo(inner), Tag: `struct:"p,omitempty"`},
+	})
+}
+
+func c19FillFresh(v reflect.Value) {
+	v.Field(0).SetString("top")
+	n := v.Field(1)
+	n.Field(0).Set(reflect.ValueOf([]int{1, 2}))
+	m := reflect.MakeMap(n.Field(1).Type())
+	e := reflect.New(n.Field(1).Type().Elem()).Elem()
+	e.Field(0).SetString("elem")
+	m.SetMapIndex(reflect.ValueOf("k"), e)
+	n.Field(1).Set(m)
+	l := reflect.MakeSlice(v.Field(2).Type(), 1, 1)
+	l.Index(0).Field(1).Set(reflect.ValueOf([]int{3}))
+	v.Field(2).Set(l)
+}
+
+func c19Call(b c19Body, it *gotype.Iterator, buf *bytes.Buffer, fresh reflect.Type) string {
+	if b.runFresh != nil {
+		return b.runFresh(fresh, buf)
+	}
+	return b.run(it, buf)
+}
+
 // RacePass is the free-running pass (run in the -race build): every body pair on 4 goroutines
 // released from a barrier, 30 rounds; results are compared with the solo results.
 func RacePass() int {
@@ -345,7 +416,7 @@ func RacePass() int {
 	want := make([]string, len(bodies))
 	for i := range bodies {
 		it, buf := c19Prepare(bodies[i])
-		want[i] = bodies[i].run(it, buf)
+		want[i] = c19Call(bodies[i], it, buf, c19FreshType())
 	}
 	rounds, mismatches := 0, 0
 	for round := 0; round < 30; round++ {
@@ -359,12 +430,13 @@ func RacePass() int {
 			got := make([]string, 4)
 			var wg sync.WaitGroup
 			barrier := make(chan struct{})
+			fresh := c19FreshType()
 			for i, id := range ids {
 				wg.Add(1)
 				go func(i, id int) {
 					defer wg.Done()
 					<-barrier
-					got[i] = bodies[id].run(its[i], bufs[i])
+					got[i] = c19Call(bodies[id], its[i], bufs[i], fresh)
 				}(i, id)
 			}
 			close(barrier)
@@ -377,6 +449,26 @@ func RacePass() int {
 			}
 			rounds++
 		}
+	}
+	// first use of named primitive types nobody has folded yet, next to reflection-based folds
+	for k := 0; k+3 < len(c19NamedPool); k += 4 {
+		var wg sync.WaitGroup
+		barrier := make(chan struct{})
+		for g := 0; g < 4; g++ {
+			wg.Add(1)
+			go func(g int) {
+				defer wg.Done()
+				<-barrier
+				var buf bytes.Buffer
+				v := []interface{}{c19NamedPool[k+g], c19Values[0], map[string]interface{}{"n": c19NamedPool[k+g]}}
+				if err := gotype.Fold(v, codecJSON.NewEnc(&buf, 0)); err != nil || buf.Len() == 0 {
+					fmt.Printf("mismatch: named type fold: %v\n", err)
+				}
+			}(g)
+		}
+		close(barrier)
+		wg.Wait()
+		rounds++
 	}
 	fmt.Printf("racepass: rounds=%d mismatches=%d\n", rounds, mismatches)
 	if mismatches > 0 {
